@@ -7,7 +7,7 @@ out = ["(* Proofs/PinTest_r2c2.v -- compiled copy of the blocks of coq/Props/pen
        "   pending pin block compiles as it stands (written by driver/r2c2_mkpintest.py).  The coordinator appends the blocks to",
        "   Props/CXX.v at merge. *)",
        "From Coq Require Import List Arith ZArith.",
-       "From OV Require Import Base.Panic Base.Arith Model.Roots.",
+       "From OV Require Import Base.Panic Base.Arith Model.Vector Model.Matrix Model.Sparse Model.Iter Model.Newton Model.Roots.",
        "Import ListNotations.", ""]
 for p in sorted(glob.glob(os.path.join(coq, "Props", "pending", "C??_r2c2.v.txt"))):
     out.append("(* ======================================================================== %s *)" % os.path.basename(p))
